@@ -25,6 +25,7 @@ type c06Case struct {
 	Refusal string       `json:"refusal,omitempty"` // longname targetIsFile parentIsFile
 	LongAt  int          `json:"longAt,omitempty"`
 	Target  string       `json:"target,omitempty"` // "", rel, slash
+	PreOps  []string     `json:"preOps,omitempty"` // From-Root: earlier operations on the same node tree
 }
 
 type c06Pre struct {
@@ -81,6 +82,7 @@ func c06Check(c c06Case) string {
 	} else {
 		cs.Root = &f[0].Name
 		cs.Prog = preorderProgram(model.Merge(f)[0])
+		cs.PreOps = c.PreOps
 	}
 	cs.Opts.Exts = c.Exts
 	cs.Opts.HasExts = c.HasExts
@@ -225,7 +227,7 @@ func c06Record(col *collector, c c06Case) {
 		cl = append(cl, "refusal:"+c.Refusal)
 	}
 	nontrivial := (files >= 1 && dirLeaves >= 1 && model.Merge(f).Depth() >= 2) || len(c.PreRoot) > 0 || c.Refusal != ""
-	col.eval(nontrivial, hash64(fmt.Sprint(f, c.Exts, c.HasExts, c.Entry, c.Massive, c.State, c.PreRoot, c.Refusal, c.LongAt, c.Target)), cl...)
+	col.eval(nontrivial, hash64(fmt.Sprint(f, c.Exts, c.HasExts, c.Entry, c.Massive, c.State, c.PreRoot, c.Refusal, c.LongAt, c.Target, c.PreOps)), cl...)
 	col.sample(func() any { return c })
 }
 
@@ -238,6 +240,9 @@ func c06Gen() *rapid.Generator[c06Case] {
 		}
 		c := c06Case{Forest: f, Entry: entry, Exts: genExts(f.Names()).Draw(t, "exts")}
 		c.HasExts = rapid.Bool().Draw(t, "hasExts")
+		if entry == "root" && rapid.Bool().Draw(t, "withPreOps") {
+			c.PreOps = rapid.SliceOfN(rapid.SampledFrom(preOpPool), 1, 2).Draw(t, "preOps")
+		}
 		c.Massive = rapid.IntRange(0, 3).Draw(t, "massive") == 0
 		c.State = rapid.SampledFrom([]string{"empty", "empty", "missing", "populated"}).Draw(t, "state")
 		c.Target = rapid.SampledFrom([]string{"", "", "rel", "slash"}).Draw(t, "target")
@@ -273,7 +278,7 @@ func TestC06Random(t *testing.T) {
 func TestC06Exhaustive(t *testing.T) {
 	col := coll("C06", "exhaustive")
 	maxN := pick(4, 6)
-	extLists := [][]string{nil, {"b"}, {"a", "b"}, {""}, {"ab", "b"}}
+	extLists := [][]string{nil, {"b"}, {"a", "b"}, {""}, {"ab", "b"}, {"a", "ab"}, {"b", "ab", "b"}}
 	col.Rule = fmt.Sprintf("all forests <=%d nodes over {a,b,ab} with distinct roots x %d extension lists x {md, root(single root)} x rotating target state, plus every single pre-existing root (file and dir)", maxN, len(extLists))
 	i, rot := 0, 0
 	model.EnumForests(maxN, []string{"a", "b", "ab"}, func(f model.Forest) {
